@@ -49,6 +49,15 @@ fn check<'a, T: DiffableStr + ?Sized>(d: &'a TextDiff<'a, 'a, 'a, T>, dl: Dl, fa
             Dl::Fuel(_) => d.iter_inline_changes_deadline(op, Some(far)).collect(),
         };
         vh::set_clock(vh::Clock::Off);
+        // every way of consuming the inline iterator delivers the same changes (sampled: first Replace op)
+        if op.tag() == DiffTag::Replace && counts.replace_ops == 0 && inline.len() <= 24 && plain.iter().map(|c| c.3.len()).sum::<usize>() <= 2000 && matches!(dl, Dl::NoneGiven | Dl::Expired) {
+            let row = |c: similar::InlineChange<'a, T>| format!("{:?} {:?} {:?} {:?}", c.tag(), c.old_index(), c.new_index(), c.values().iter().map(|(e, v)| (*e, v.as_bytes().to_vec())).collect::<Vec<_>>());
+            let dlv = if matches!(dl, Dl::Expired) { Some(past) } else { None };
+            let f = iter_battery(&|| d.iter_inline_changes_deadline(op, dlv), &row, oi as u64 * 7 + inline.len() as u64);
+            if let Some(f) = f.first() {
+                fails.push(("inline.iterator_protocol", format!("op #{} {:?}: iter_inline_changes_deadline: {}", oi, op, f)));
+            }
+        }
         if op.tag() == DiffTag::Replace {
             counts.replace_ops += 1;
         }
